@@ -100,7 +100,7 @@ def case_strategy(draw):
     if draw(st.integers(0, 4)) == 0:
         case["pacing"] = draw(S.pacing_scripts(max_len=16))
     if f is not None and draw(st.integers(0, 4)) == 0:
-        case["dest_kind"] = draw(st.sampled_from(["dir", "existing"]))
+        case["dest_kind"] = draw(st.sampled_from(["dir", "existing", "dir_existing"]))
     if draw(st.integers(0, 3)) == 0:
         # the same handler objects first carried another transfer (its indications must not leak into this one)
         case["before"] = {
